@@ -161,6 +161,23 @@ func (monC14) TaskEnd(s *Sim, t *Task) {
 				s.Violate("C14", "cond", "paused", "%s: Canary-Paused condition %v, canary facts say %v", t.Label(), !wantPausedCond, wantPausedCond)
 			}
 		}
+		// reason: only a paused canary in progress has one
+		if want != edsv1.ExtendedDaemonSetStatusStateCanaryPaused && st.Reason != "" {
+			s.Violate("C14", "reason", "stale", "%s: state %q but reason %q is still reported", t.Label(), st.State, st.Reason)
+		}
+		if want == edsv1.ExtendedDaemonSetStatusStateCanaryPaused && upToDate != nil {
+			wantReason := ""
+			if pc := ersCond(&upToDate.Status, edsv1.ConditionTypeCanaryPaused); pc != nil && pc.Status == corev1.ConditionTrue {
+				wantReason = pc.Reason
+			} else if r, ok := ann[edsv1.ExtendedDaemonSetCanaryPausedReasonAnnotationKey]; ok {
+				wantReason = r
+			} else {
+				wantReason = string(edsv1.ExtendedDaemonSetStatusReasonUnknown)
+			}
+			if string(st.Reason) != wantReason {
+				s.Violate("C14", "reason", "paused", "%s: canary paused, reason %q reported, the pause source says %q", t.Label(), st.Reason, wantReason)
+			}
+		}
 		if st.State != want {
 			prop := "C14"
 			s.Violate(prop, "state", string(want), "%s: state %q, expected %q (frozen=%v paused=%v)", t.Label(), st.State, want, frozen, ruPaused)
